@@ -217,6 +217,7 @@ func (fr *frame) block(b *ssa.BasicBlock, st *state) {
 			fr.doCall(b, st, x, x.Common(), x)
 		case *ssa.Go:
 			c.note("go statement: the spawned call is not given an interleaving semantics (precondition checked, effects not modelled)")
+			fr.callsiteObls(b, st, x, x.Common()) // a `go f(...)` is a call site of f for call-site clauses
 			fr.doSpawn(b, st, x)
 		case *ssa.Defer:
 			fr.deferred = append(fr.deferred, x)
